@@ -11,6 +11,7 @@ namespace tsched {
 
 struct Stats {
   uint64_t switches = 0, yields = 0, lock_ops = 0, contended = 0, time_advances = 0;
+  uint64_t unlock_not_owner = 0;     // pthread_mutex_unlock by a thread that does not hold the mutex
   uint64_t schedule_hash = 0;
 };
 
